@@ -17,15 +17,36 @@ def decode_case(case):
     return feat, srcs
 
 
-def same(la, lb):
-    """Implementation line vs model line.  Accepted images are compared completely; rejections by
-    class only (the diagnostic's code and span are reported but not required to coincide)."""
+def sections(t):
+    """accepted line -> dict(image=[has_orig, orig, words..], bps=[..], spans=[..])"""
+    n = int(t[3], 16)
+    i = 4 + n
+    nb = int(t[i], 16)
+    j = i + 1 + 2 * nb
+    return {"image": t[1:4 + n], "bps": t[i:j], "spans": t[j:]}
+
+
+def same(la, lb, aux=()):
+    """Implementation line vs model line -> (agree, outside_property).  Accepted images are compared completely;
+    rejections by class only (the diagnostic's code and span are reported but not required to coincide).
+    `aux`: what the property at hand does not speak about, among "bps", "spans", "image", "verdict": when only those
+    differ the correspondence is broken but no input on which the property fails has been found."""
     ta, tb = la.split(), lb.split()
-    if not ta or not tb or ta[0] != tb[0]:
-        return False
+    if not ta or not tb:
+        return False, False
+    if ta[0] != tb[0]:
+        # accepted vs rejected vs panic: a panic is never outside the property
+        return False, ("verdict" in aux and "2" not in (ta[0], tb[0]))
     if ta[0] == "0":
-        return ta == tb
-    return True
+        if ta == tb:
+            return True, False
+        try:
+            sa, sb = sections(ta), sections(tb)
+        except (ValueError, IndexError):
+            return False, False
+        diff = [k for k in ("image", "bps", "spans") if sa[k] != sb[k]]
+        return False, all(k in aux for k in diff)
+    return True, False
 
 
 def line_sig(lb):
@@ -37,7 +58,7 @@ def line_sig(lb):
     return ("panic",)
 
 
-def run_asm_cases(ctx, cases, tags, violations, profiles=("debug",), limit=10, prop_note=""):
+def run_asm_cases(ctx, cases, tags, violations, profiles=("debug",), limit=10, prop_note="", aux=()):
     """-> dict(evaluations, sigs, samples, hist, mismatches, diag_differs)"""
     evaluations, mismatches, diag_differs = 0, 0, 0
     sigs, samples, hist = set(), [], {}
@@ -62,7 +83,7 @@ def run_asm_cases(ctx, cases, tags, violations, profiles=("debug",), limit=10, p
                     sigs.add(sig)
                     if len(samples) < 8:
                         samples.append({"tag": tags[ci], "sources": decode_case(cases[ci])[1], "model": lb[:200]})
-                ok = same(la, lb)
+                ok, outside = same(la, lb, aux)
                 bad_span = la.split()[-1:] == ["bad"] and la.split()[0] == "1"
                 if ok and not bad_span:
                     if la.split()[0] == "1" and la.split()[1] != lb.split()[1]:
@@ -74,7 +95,9 @@ def run_asm_cases(ctx, cases, tags, violations, profiles=("debug",), limit=10, p
                     continue
                 vkeys.add(str(key))
                 feat, srcs = decode_case(cases[ci])
-                violations.append({"kind": "diagnostic-span-outside-source" if (ok and bad_span) else "model-vs-implementation",
+                violations.append({"kind": "diagnostic-span-outside-source" if (ok and bad_span) else
+                                           ("correspondence-differs-outside-the-property" if outside else "model-vs-implementation"),
+                                   "no_failing_input": bool(outside and not (ok and bad_span)),
                                    "profile": prof, "tag": tags[ci], "case": cases[ci], "feature_stack": feat,
                                    "sources": srcs, "source_index": k, "implementation": la, "model": lb,
                                    "format": "0 has_orig orig nwords words.. nbps (addr predef).. nspans (offs len).. | 1 diag start len | 2 panic",
@@ -92,6 +115,6 @@ def replay_asm(ctx, payload):
         la = ri[0][k] if ri[0] and k < len(ri[0]) else ""
         log(f"implementation : {la}")
         log(f"model          : {lb}")
-        agree = agree and same(la, lb) and la.split()[-1:] != ["bad"]
+        agree = agree and same(la, lb)[0] and la.split()[-1:] != ["bad"]
     log("agree" if agree else "DISAGREE")
     return 0 if agree else 1
